@@ -281,6 +281,8 @@ type Endpoint struct {
 	// lateTransport: a call into the transport that began after that.
 	closeReturned bool
 	lateTransport string
+	// closedBeforeDrain: the endpoint was seen closed under the scheduler
+	closedBeforeDrain bool
 }
 
 func (e *Endpoint) begin(thread, kind string, data []byte) *CallRec {
@@ -760,6 +762,11 @@ func (w *World) BeforeDrain(s *vrt.Sched) {
 // application would, from fresh goroutines (Close may block).
 func (w *World) Drain(s *vrt.Sched) {
 	w.draining = true
+	// (the drain runs free: only what was closed under the scheduler is
+	// judged by the timer oracle of AfterDrain)
+	for _, e := range []*Endpoint{w.C, w.S} {
+		e.closedBeforeDrain = e.closedAt >= 0
+	}
 	if w.sc.NoDrainClose {
 		return
 	}
@@ -786,7 +793,7 @@ func (w *World) AfterDrain(s *vrt.Sched) {
 	}
 	var cs []tc
 	for _, e := range []*Endpoint{w.C, w.S} {
-		if e.Conn == nil {
+		if e.Conn == nil || !e.closedBeforeDrain {
 			continue
 		}
 		if c := e.Conn.VerifResendTickerC(); c != nil {
